@@ -1,11 +1,11 @@
-(* C16 - the PagedResults adapter returns the whole result set exactly once. Pinned statements only. For every paging script (pages of entries/references/intermediates, each ending with a result; every page but the last returns a non-empty cookie, the last an empty one or no paging control) and every page size and caller control list without a paging control: draining the adapted stream yields the concatenation of all pages' items in order, the stream ends Done, the final result is the last page's without the paging control, the first request carries the caller's controls plus paging(size, empty cookie) and every follow-up repeats parameters and controls with the cookie the server last returned (c16); a caller-supplied paging control is rejected at start. *)
+(* C16 - the PagedResults adapter returns the whole result set exactly once. Pinned statements only. For every paging script (pages of entries/references/intermediates, each ending with a result; every page but the last returns a non-empty cookie, the last an empty one or no paging control) and every page size and caller control list without a paging control: draining the adapted stream yields the concatenation of all pages' items in order, the stream ends Done, the final result is the last page's without the paging control, the first request carries the caller's controls plus paging(size, empty cookie) and every follow-up repeats parameters and controls with the cookie the server last returned (c16); a caller-supplied paging control is rejected at start. [fx] is the repair switch of F21 (the page result is cleared when the follow-up page is spliced in): the theorem holds with and without it. *)
 From RecordUpdate Require Import RecordUpdate.
 From Coq Require Import List ZArith NArith Lia Bool Arith.
 From Coq.Strings Require Import Byte.
 From L3 Require Import Paged.
 Import ListNotations.
 
-Theorem c16 : forall (params : nat) (user_ctrls : list ctl) (size : N) (p : page) (rest : list page) (s0 : stream), start params user_ctrls size (p :: rest) = Some s0 -> wf_script (p_result p) rest -> exists s' : stream, drain (S (length (flat_map p_items (p :: rest)) + length (p :: rest))) s0 = (flat_map p_items (p :: rest), s') /\ st s' = Done /\ res s' = Some (final_of (last_result (p_result p) rest)) /\ wire s' = {| q_params := params; q_ctrls := user_ctrls ++ [CPaged size []] |} :: followups params user_ctrls size (p_result p) rest.
+Theorem c16 : forall (fx : bool) (params : nat) (user_ctrls : list ctl) (size : N) (p : page) (rest : list page) (s0 : stream), start params user_ctrls size (p :: rest) = Some s0 -> wf_script (p_result p) rest -> exists s' : stream, drain fx (S (length (flat_map p_items (p :: rest)) + length (p :: rest))) s0 = (flat_map p_items (p :: rest), s') /\ st s' = Done /\ res s' = Some (final_of (last_result (p_result p) rest)) /\ wire s' = {| q_params := params; q_ctrls := user_ctrls ++ [CPaged size []] |} :: followups params user_ctrls size (p_result p) rest.
 Proof. exact Paged.c16. Qed.
 
 Theorem c16_rejects_caller_paging_control : forall (params : nat) (uc : list ctl) (size : N) (srv : list page), existsb is_paged uc = true -> start params uc size srv = None.
